@@ -55,6 +55,8 @@ pub struct OutMessageMeta {
     pub out_message_consumer_id: ConsumerId,
     pub connection_id: ConnectionId,
     pub pending_scrape_id: Option<PendingScrapeId>,
+    /// Close the connection once this message has been sent to the peer
+    pub close_connection: bool,
 }
 
 impl From<InMessageMeta> for OutMessageMeta {
@@ -63,6 +65,7 @@ impl From<InMessageMeta> for OutMessageMeta {
             out_message_consumer_id: val.out_message_consumer_id,
             connection_id: val.connection_id,
             pending_scrape_id: val.pending_scrape_id,
+            close_connection: false,
         }
     }
 }
